@@ -643,4 +643,187 @@ theorem make_locked_tx_iff (s : Samples) (d : Data) (h : s.wf) (t : TxSample) (h
     rw [mem_keys_txFold_locked]; right
     exact ⟨t, ht, rfl, hc⟩
 
+
+/-! ### `analyze_transactions` -/
+
+/-- the condition "ready and runnable, did not run, some conflicting transaction ran" for id `t` -/
+def lockedB (s : Samples) (d : Data) (t : Nat) : Bool :=
+  match s.txs.find? (·.id == t) with
+  | some x => lockedCond s d x
+  | none => false
+
+theorem count_of_nodup (l : List Nat) (t : Nat) (h : l.Nodup) : l.count t = if t ∈ l then 1 else 0 := by
+  induction l with
+  | nil => simp
+  | cons a l ih =>
+    simp only [List.nodup_cons] at h
+    rw [List.count_cons, ih h.2]
+    by_cases hat : a = t
+    · subst hat; simp [h.1]
+    · have : t ≠ a := fun e => hat e.symm
+      simp [hat, this]
+
+theorem statOf_bumpRun (st : List Stat) (i t : Nat) (x : Stat) (h : statOf st t = some x) :
+    statOf (bumpRun st i) t = some (if t = i then { x with run := x.run + 1 } else x) := by
+  induction st with
+  | nil => simp [statOf] at h
+  | cons a st ih =>
+    simp only [statOf, bumpRun, List.map_cons, List.find?_cons] at h ⊢
+    by_cases ha : a.id = t
+    · have e1 : (a.id == t) = true := by simpa using ha
+      simp only [e1, Option.some.injEq] at h
+      subst h
+      by_cases hi : a.id = i
+      · have e2 : (a.id == i) = true := by simpa using hi
+        have : t = i := by rw [← ha, hi]
+        simp [e2, e1, this]
+      · have e2 : (a.id == i) = false := by simpa using hi
+        have : ¬ t = i := by rw [← ha]; exact hi
+        simp [e2, e1, this]
+    · have e1 : (a.id == t) = false := by simpa using ha
+      simp only [e1] at h
+      have := ih h
+      simp only [statOf, bumpRun] at this
+      by_cases hi : a.id = i
+      · have e2 : (a.id == i) = true := by simpa using hi
+        simp only [e2, ↓reduceIte, e1]; exact this
+      · have e2 : (a.id == i) = false := by simpa using hi
+        simp only [e2, Bool.false_eq_true, ↓reduceIte, e1]; exact this
+
+theorem statOf_bumpLocked (st : List Stat) (i t : Nat) (x : Stat) (h : statOf st t = some x) :
+    statOf (bumpLocked st i) t = some (if t = i then { x with locked := x.locked + 1 } else x) := by
+  induction st with
+  | nil => simp [statOf] at h
+  | cons a st ih =>
+    simp only [statOf, bumpLocked, List.map_cons, List.find?_cons] at h ⊢
+    by_cases ha : a.id = t
+    · have e1 : (a.id == t) = true := by simpa using ha
+      simp only [e1, Option.some.injEq] at h
+      subst h
+      by_cases hi : a.id = i
+      · have e2 : (a.id == i) = true := by simpa using hi
+        have : t = i := by rw [← ha, hi]
+        simp [e2, e1, this]
+      · have e2 : (a.id == i) = false := by simpa using hi
+        have : ¬ t = i := by rw [← ha]; exact hi
+        simp [e2, e1, this]
+    · have e1 : (a.id == t) = false := by simpa using ha
+      simp only [e1] at h
+      have := ih h
+      simp only [statOf, bumpLocked] at this
+      by_cases hi : a.id = i
+      · have e2 : (a.id == i) = true := by simpa using hi
+        simp only [e2, ↓reduceIte, e1]; exact this
+      · have e2 : (a.id == i) = false := by simpa using hi
+        simp only [e2, Bool.false_eq_true, ↓reduceIte, e1]; exact this
+
+theorem statOf_foldl_bumpRun (ks : List Nat) (st : List Stat) (t : Nat) (x : Stat) (h : statOf st t = some x) :
+    statOf (ks.foldl bumpRun st) t = some { x with run := x.run + ks.count t } := by
+  induction ks generalizing st x with
+  | nil => simpa using h
+  | cons k ks ih =>
+    simp only [List.foldl_cons]
+    rw [ih _ _ (statOf_bumpRun st k t x h)]
+    by_cases hk : t = k
+    · subst hk; simp [List.count_cons]; omega
+    · have : ¬ k = t := fun e => hk e.symm
+      simp [hk, List.count_cons, this]
+
+theorem statOf_foldl_bumpLocked (ks : List Nat) (st : List Stat) (t : Nat) (x : Stat) (h : statOf st t = some x) :
+    statOf (ks.foldl bumpLocked st) t = some { x with locked := x.locked + ks.count t } := by
+  induction ks generalizing st x with
+  | nil => simpa using h
+  | cons k ks ih =>
+    simp only [List.foldl_cons]
+    rw [ih _ _ (statOf_bumpLocked st k t x h)]
+    by_cases hk : t = k
+    · subst hk; simp [List.count_cons]; omega
+    · have : ¬ k = t := fun e => hk e.symm
+      simp [hk, List.count_cons, this]
+
+theorem statOf_analyzeCycle (st : List Stat) (c : CycleProfile) (t : Nat) (x : Stat) (h : statOf st t = some x) :
+    statOf (analyzeCycle st c) t =
+      some { x with run := x.run + (keys c.running).count t, locked := x.locked + (keys c.locked).count t } := by
+  unfold analyzeCycle
+  rw [statOf_foldl_bumpLocked _ _ _ _ (statOf_foldl_bumpRun _ _ _ _ h)]
+
+theorem statOf_initStats_aux (l : List (Nat × Bool)) (t : Nat) (h : (t, true) ∈ l) :
+    ((l.filter (·.2)).map fun e => ({ id := e.1, run := 0, locked := 0 } : Stat)).find? (·.id == t) =
+      some { id := t, run := 0, locked := 0 } := by
+  induction l with
+  | nil => cases h
+  | cons e l ih =>
+    obtain ⟨a, b⟩ := e
+    cases b
+    · simp only [List.mem_cons, Prod.mk.injEq, Bool.true_eq_false, and_false, false_or] at h
+      simpa [List.filter_cons] using ih h
+    · simp only [List.filter_cons, ↓reduceIte, List.map_cons, List.find?_cons]
+      by_cases ha : a = t
+      · subst ha; simp
+      · have e1 : (a == t) = false := by simpa using ha
+        simp only [e1]
+        simp only [List.mem_cons, Prod.mk.injEq, and_true] at h
+        rcases h with h | h
+        · exact absurd h.symm ha
+        · exact ih h
+
+theorem statOf_initStats (d : Data) (t : Nat) (h : (t, true) ∈ d.info) :
+    statOf (initStats d) t = some { id := t, run := 0, locked := 0 } :=
+  statOf_initStats_aux d.info t h
+
+theorem count_running_make (s : Samples) (d : Data) (h : s.wf) (x : TxSample) (hx : x ∈ s.txs) :
+    (keys (make s d).running).count x.id = if txRun s x.id then 1 else 0 := by
+  rw [count_of_nodup _ _ (make_nodup s d).1, txRun_of_wf s h x hx]
+  have := make_running_tx s d h x hx
+  by_cases hr : x.run = true
+  · have hm : x.id ∈ keys (make s d).running := by
+      rw [mem_keys_iff_lookup, this]; simp [hr]
+    simp [hr, hm]
+  · have hm : x.id ∉ keys (make s d).running := by
+      rw [mem_keys_iff_lookup, this]; simp [hr]
+    simp [hr, hm]
+
+theorem lockedB_of_wf (s : Samples) (d : Data) (h : s.wf) (x : TxSample) (hx : x ∈ s.txs) :
+    lockedB s d x.id = lockedCond s d x := by
+  unfold lockedB
+  split
+  · rename_i y hy
+    have h1 := List.mem_of_find?_eq_some hy
+    have h2 := List.find?_some hy
+    rw [wf_tx_inj s h y h1 x hx (by simpa using h2)]
+  · rename_i hy
+    rw [List.find?_eq_none] at hy
+    have := hy x hx
+    simp at this
+
+theorem count_locked_make (s : Samples) (d : Data) (h : s.wf) (x : TxSample) (hx : x ∈ s.txs) :
+    (keys (make s d).locked).count x.id = if lockedB s d x.id then 1 else 0 := by
+  rw [count_of_nodup _ _ (make_nodup s d).2, lockedB_of_wf s d h x hx]
+  by_cases hc : lockedCond s d x = true
+  · simp [hc, (make_locked_tx_iff s d h x hx).2 hc]
+  · have : x.id ∉ keys (make s d).locked := fun hm => hc ((make_locked_tx_iff s d h x hx).1 hm)
+    simp [hc, this]
+
+theorem statOf_analyze_fold (d : Data) (hist : List Samples) (t : Nat) (st : List Stat) (x : Stat)
+    (hst : statOf st t = some x)
+    (hwf : ∀ s ∈ hist, s.wf ∧ ∃ y ∈ s.txs, y.id = t) :
+    statOf ((profile d hist).foldl analyzeCycle st) t =
+      some { x with run := x.run + hist.countP (fun s => txRun s t),
+                    locked := x.locked + hist.countP (fun s => lockedB s d t) } := by
+  induction hist generalizing st x with
+  | nil => simpa [profile] using hst
+  | cons s hist ih =>
+    obtain ⟨hs, y, hy, hid⟩ := hwf s List.mem_cons_self
+    have hrest : ∀ s' ∈ hist, s'.wf ∧ ∃ y ∈ s'.txs, y.id = t :=
+      fun s' hs' => hwf s' (List.mem_cons_of_mem _ hs')
+    simp only [profile, List.map_cons, List.foldl_cons]
+    have h1 := statOf_analyzeCycle st (make s d) t x hst
+    have h2 := ih _ _ h1 hrest
+    simp only [profile] at h2
+    rw [h2]
+    subst hid
+    rw [count_running_make s d hs y hy, count_locked_make s d hs y hy, List.countP_cons, List.countP_cons]
+    simp only [Option.some.injEq, Stat.mk.injEq, true_and]
+    constructor <;> omega
+
 end TxV.Profiler
